@@ -73,7 +73,7 @@ def split_run(cfg, seed):
     return cfg
 
 
-def sweep(regions, n=60, seed0=100000, frames=150, size='quick', verbose=True, stop_first=False, split=False):
+def sweep(regions, n=60, seed0=100000, frames=150, size='quick', verbose=True, stop_first=False, split=False, cap_frames=None):
     drv = driver()
     out = {}
     first = None
@@ -87,6 +87,8 @@ def sweep(regions, n=60, seed0=100000, frames=150, size='quick', verbose=True, s
                 continue
             if split:
                 cfg = split_run(cfg, seed)
+            if cap_frames is not None and cfg.get('max_frames'):
+                cfg['max_frames'] = min(cfg['max_frames'], cap_frames)     # observed traces keep every snapshot: bound the memory
             tr = netbuild.run_cfg(cfg, max_frames=cfg.get('max_frames'))
             if tr.init is None or getattr(tr, 'rejected', False):
                 tot['rejected'] += 1
@@ -127,10 +129,11 @@ if __name__ == '__main__':
     ap.add_argument('--size', default='quick')
     ap.add_argument('--quiet', action='store_true')
     ap.add_argument('--stop', action='store_true')
+    ap.add_argument('-m', type=int, default=None, help='cap on the number of events simulated per run')
     ap.add_argument('--split', action='store_true', help='run every configuration as several successive simulate_until_* calls')
     ap.add_argument('regions', nargs='*')
     a = ap.parse_args()
-    out, first = sweep(a.regions or DEFAULT, a.n, a.s, a.f, a.size, verbose=True, stop_first=a.stop, split=a.split)
+    out, first = sweep(a.regions or DEFAULT, a.n, a.s, a.f, a.size, verbose=True, stop_first=a.stop, split=a.split, cap_frames=a.m)
     tr = sum(v.get('runs', 0) for v in out.values())
     tf = sum(v.get('frames', 0) for v in out.values())
     tm = sum(v.get('mismatch', 0) for v in out.values())
